@@ -90,6 +90,14 @@ CHECKS["C10"] = dict(
     ref="DESIGN.md §5 C10",
 )
 
+CHECKS["C15"] = dict(
+    level="fault_enumeration",
+    text="Single-point fault enumeration on valid documents of generated models: truncation at every byte offset, bit flips, byte edits, delete/duplicate/retag/swap of every element, corruption of every leaf/attribute, bad xsi:type/xsi:nil, undeclared prefix, wrong target class, random byte strings; JSON: truncation at every offset, type swap/deletion at every node, wrong root kinds. Oracle: result is an instance of the requested class or one of xsdata's documented errors; the pure-python handler must raise whenever plain expat rejects the input; logical step budget; SIGALRM watchdog (inconclusive only). Held on the executions produced.",
+    note="Trusted: expat's own well-formedness judgement (outside xsdata), the harness emitter for structural faults. The lxml handler's recover=True leniency is not judged. JSON text that is not JSON at all is rejected by the pluggable load_factory (json.JSONDecodeError) and is not attributed to xsdata.",
+    technique="runtime monitoring: fault injection with an exception-class / result-type / termination oracle; invariant hook counting handler steps",
+    ref="DESIGN.md §5 C15",
+)
+
 FIX_COMMITS = []  # guarded hook commits in /repo (none: all hooks are installed from the harness side)
 
 
